@@ -1,6 +1,7 @@
 import Gen.Marshal
 import Model.MarshalScalar
 import Model.MarshalDecode
+import Model.Marshal
 /-!
   Tie theorems between the definitions REGENERATED from /repo/marshal.go by tools/go2lean (`Gen.Marshal`, fixed-width
   BitVec arithmetic as the Go code computes) and the hand-written `Int`/`Nat` model the C02/C12 theorems are about
@@ -771,5 +772,140 @@ theorem decVint (data : List UInt8) (s : Nat) (hd : data.length < 2^60) (hs : s 
         rw [hr0, hn]
         congr 3
         omega
+
+/-! ### `writeCollectionSize` (`*bytes.Buffer` parameter = the list of bytes written, returned) against `Marshal.collSize` -/
+
+theorem bmod64 (a : Int) (ha : -(2:Int)^63 ≤ a ∧ a < 2^63) : a.bmod (2^64) = a := by
+  apply Int.bmod_eq_of_le
+  · have e : ((2 ^ 64 : Nat) : Int) = 18446744073709551616 := rfl
+    rw [e]; omega
+  · have e : ((2 ^ 64 : Nat) : Int) = 18446744073709551616 := rfl
+    rw [e]; omega
+
+theorem slt_int (a b : Int) (ha : -(2:Int)^63 ≤ a ∧ a < 2^63) (hb : -(2:Int)^63 ≤ b ∧ b < 2^63) :
+    BitVec.slt (BitVec.ofInt 64 a) (BitVec.ofInt 64 b) = decide (a < b) := by
+  simp only [BitVec.slt, BitVec.toInt_ofInt, bmod64 a ha, bmod64 b hb]
+
+theorem byteOf_shift_toS32 (n : Int) (k : Nat) (hk : k = 0 ∨ k = 8 ∨ k = 16 ∨ k = 24) :
+    byteOf (toS 32 n >>> k) = byteOf (n >>> k) := by
+  unfold byteOf toS
+  congr 2
+  simp only [Int.shiftRight_eq_div_pow]
+  obtain rfl | rfl | rfl | rfl := hk
+  all_goals (simp only [Nat.reducePow, Nat.reduceSub, Int.reducePow]; omega)
+
+theorem byteOf_shift_toS16 (n : Int) (k : Nat) (hk : k = 0 ∨ k = 8) :
+    byteOf (toS 16 n >>> k) = byteOf (n >>> k) := by
+  unfold byteOf toS
+  congr 2
+  simp only [Int.shiftRight_eq_div_pow]
+  obtain rfl | rfl := hk
+  all_goals (simp only [Nat.reducePow, Nat.reduceSub, Int.reducePow]; omega)
+
+/-- `writeCollectionSize(info, n, buf)` (the `*bytes.Buffer` is the list of the bytes written): "too large" or the
+    buffer followed by the model's `collSize` bytes, both protocol framings, every int -/
+theorem writeCollectionSize (p : BitVec 8) (n : Int) (hn : -(2:Int)^63 ≤ n ∧ n < 2^63) (buf : List (BitVec 8)) :
+    (match Gen.Marshal.writeCollectionSize p (BitVec.ofInt 64 n) buf with
+     | (b, err) => if err then none else some (b.map UInt8.ofBitVec))
+      = (Marshal.collSize p.toNat n).map (buf.map UInt8.ofBitVec ++ ·) := by
+  unfold Gen.Marshal.writeCollectionSize Marshal.collSize
+  have hp : BitVec.ult 0x2#8 p = decide (p.toNat > 2) := by simp [BitVec.ult]
+  have h1 : (0x7fffffff#64 : BitVec 64) = BitVec.ofInt 64 2147483647 := by decide
+  have h2 : (0xffff#64 : BitVec 64) = BitVec.ofInt 64 65535 := by decide
+  rw [hp, h1, h2, slt_int _ _ (by omega) hn, slt_int _ _ (by omega) hn]
+  by_cases hv : p.toNat > 2
+  · by_cases hbig : (2147483647:Int) < n
+    · simp [hv, hbig]
+    · have : ¬ n > 2147483647 := by omega
+      simp only [hv, hbig, decide_true, decide_false, if_true, if_false, Bool.false_eq_true, Option.map_some,
+        Marshal.encInt, List.map_append, List.map_cons, List.map_nil, List.append_assoc, List.cons_append, List.nil_append]
+      rw [byte_shift (by decide) n 24 hn, byte_shift (by decide) n 16 hn, byte_shift (by decide) n 8 hn, byte_low (by decide) n hn,
+        byteOf_shift_toS32 n 24 (by omega), byteOf_shift_toS32 n 16 (by omega), byteOf_shift_toS32 n 8 (by omega)]
+      have := byteOf_shift_toS32 n 0 (by omega)
+      simp only [Int.shiftRight_zero] at this
+      rw [this]
+  · by_cases hbig : (65535:Int) < n
+    · simp [hv, hbig]
+    · have : ¬ n > 65535 := by omega
+      simp only [hv, hbig, decide_true, decide_false, if_true, if_false, Bool.false_eq_true, Option.map_some,
+        Marshal.encShort, List.map_append, List.map_cons, List.map_nil, List.append_assoc, List.cons_append, List.nil_append]
+      rw [byte_shift (by decide) n 8 hn, byte_low (by decide) n hn, byteOf_shift_toS16 n 8 (by omega)]
+      have := byteOf_shift_toS16 n 0 (by omega)
+      simp only [Int.shiftRight_zero] at this
+      rw [this]
+
+/-! ### `decVints`: three `decVint` calls threaded through the returned position -/
+
+theorem decVint_next (data : List UInt8) (s : Nat) (hd : data.length < 2^60) (hs : s ≤ data.length) :
+    (Gen.Marshal.decVint (data.map (·.toBitVec)) (BitVec.ofNat 64 s)).2.2 = false →
+      (Gen.Marshal.decVint (data.map (·.toBitVec)) (BitVec.ofNat 64 s)).2.1.toNat ≤ data.length := by
+  unfold Gen.Marshal.decVint
+  rw [List.length_map, sle_nat _ _ (by omega) (by omega)]
+  by_cases h1 : data.length ≤ s
+  · simp [h1]
+  · have hlt : s < data.length := by omega
+    have hsn : (BitVec.ofNat 64 s).toNat = s := by simp only [BitVec.toNat_ofNat]; omega
+    have hget : (data.map (·.toBitVec)).getD (BitVec.ofNat 64 s).toNat 0#8 = (data[s]).toBitVec := by
+      rw [hsn, List.getD_eq_getElem?_getD, List.getElem?_map, List.getElem?_eq_getElem hlt]; rfl
+    simp only [h1, decide_false, Bool.false_eq_true, if_false, hget, small_iff, UInt8.toNat_toBitVec]
+    generalize data[s] = first
+    by_cases hsm : first.toNat < 128
+    · have hn : (BitVec.ofNat 64 s + 0x1#64).toNat = s + 1 := by simp; omega
+      simp only [hsm, decide_true, if_true, hn]
+      intro _; omega
+    · simp only [hsm, decide_false, Bool.false_eq_true, if_false, numBytes_val]
+      have hnb : Marshal.leadOnes first ≤ 8 := by unfold Marshal.leadOnes; omega
+      generalize Marshal.leadOnes first = nb at hnb
+      have hadd : BitVec.ofNat 64 s + BitVec.ofNat 64 nb + 0x1#64 = BitVec.ofNat 64 (s + nb + 1) := by
+        apply BitVec.eq_of_toNat_eq; simp
+      rw [hadd, slt_small_dec _ _ (by omega) (by omega)]
+      by_cases hshort : data.length < s + nb + 1
+      · simp [hshort]
+      · have hn : (BitVec.ofNat 64 (s + nb + 1)).toNat = s + nb + 1 := by simp only [BitVec.toNat_ofNat]; omega
+        simp only [hshort, decide_false, Bool.false_eq_true, if_false, hn]
+        intro _; omega
+
+
+theorem toInt_trunc32 (v : BitVec 64) : (v.setWidth 32).toInt = toS 32 v.toInt := by
+  rw [toS_of_toNat (by decide)]
+  unfold toS
+  rw [BitVec.toNat_setWidth, BitVec.toInt_eq_toNat_cond]
+  have := v.isLt
+  simp only [Nat.reducePow, Nat.reduceSub, Int.reducePow]
+  split <;> omega
+
+theorem trunc32' (v : BitVec 64) : ((v.toNat : Nat) : Int).bmod 4294967296 = toS 32 v.toInt := by
+  have := toInt_trunc32 v
+  simpa using this
+
+/-- one call of the generated `decVint` at a position inside the data, in destructured form -/
+theorem decVint_step (data : List UInt8) (s : BitVec 64) (hd : data.length < 2^60) (hs : s.toNat ≤ data.length)
+    (v p : BitVec 64) (e : Bool) (hg : Gen.Marshal.decVint (data.map (·.toBitVec)) s = (v, p, e)) :
+    (e = true ∧ Marshal.decVint (data.drop s.toNat) = none) ∨
+    (e = false ∧ p.toNat ≤ data.length ∧ Marshal.decVint (data.drop s.toNat) = some (v.toInt, data.drop p.toNat)) := by
+  have t := decVint data s.toNat hd hs
+  have n := decVint_next data s.toNat hd hs
+  rw [BitVec.ofNat_toNat, BitVec.setWidth_eq, hg] at t n
+  cases e
+  · right; exact ⟨rfl, n rfl, by simpa using t.symm⟩
+  · left; exact ⟨rfl, by simpa using t.symm⟩
+
+/-- `decVints`: months, days (truncated to int32), nanoseconds, or an error -/
+theorem decVints (data : List UInt8) (hd : data.length < 2^60) :
+    (match Gen.Marshal.decVints (data.map (·.toBitVec)) with
+     | (m, d, n, err) => if err then none else some (m.toInt, d.toInt, n.toInt)) = Marshal.decVints data := by
+  unfold Gen.Marshal.decVints Marshal.decVints
+  rcases h1 : Gen.Marshal.decVint (data.map (·.toBitVec)) 0x0#64 with ⟨v1, p1, e1⟩
+  rcases decVint_step data 0x0#64 hd (by simp) v1 p1 e1 h1 with ⟨rfl, m1⟩ | ⟨rfl, b1, m1⟩
+  · simp at m1; simp [m1, h1]
+  · simp at m1
+    rcases h2 : Gen.Marshal.decVint (data.map (·.toBitVec)) p1 with ⟨v2, p2, e2⟩
+    rcases decVint_step data p1 hd b1 v2 p2 e2 h2 with ⟨rfl, m2⟩ | ⟨rfl, b2, m2⟩
+    · simp [m1, m2, h1, h2]
+    · rcases h3 : Gen.Marshal.decVint (data.map (·.toBitVec)) p2 with ⟨v3, p3, e3⟩
+      rcases decVint_step data p2 hd b2 v3 p3 e3 h3 with ⟨rfl, m3⟩ | ⟨rfl, b3, m3⟩
+      · simp [m1, m2, m3, h1, h2, h3]
+      · simp [m1, m2, m3, h1, h2, h3]
+        exact ⟨trunc32' v1, trunc32' v2⟩
 
 end GenTie.C12
